@@ -171,7 +171,7 @@ func c06Run(c *core.Ctx, i int64, src []byte, class string, hint string) {
 		c.Count("parse_errors_returned", 1)
 	}
 	// Interpret
-	r := Interpret(src)
+	r := InterpretReused(src)
 	c.Eval(1)
 	if r.Panic != "" {
 		report("Interpret", r.Panic, r.Stack)
